@@ -137,6 +137,7 @@ func (i *RoaringBitmapIter) Next() bool {
 		}
 
 		i.node = i.node.Next()
+		i.iter = nil
 	}
 
 	return false
